@@ -176,8 +176,9 @@ Proof. exact changed_prefix_universe_satisfies_QI. Qed.
    maxHeightPrecommited of every accepted Apply is the v_mhpc of the vote model's view of the chain the node then holds and every
    chain ever held belongs to a universe satisfying the premises of C01_static_safety_decl: at all times, for every height
    h <= min(finalized height of node 1, of node 2) both nodes serve a block at h and the two blocks are the same.
-   [blk_of] maps a block ID to its BFT content; genesis height 0; ID equality needs [blk_of] injective (the vote model's headers
-   carry no ID). *)
+   [blk_of] maps a block ID to its BFT content; genesis height 0.  THIS identity-free form needs [blk_of] injective to conclude
+   ID equality, and a Byzantine generator falsifies that premise (two blocks with equal BFT fields and different IDs): it is kept
+   for reference only and SUPERSEDED by C01_nodes_agree_on_finalized_block_ids below, which has no such premise. *)
 From LE Require Import BFT.EndToEnd.
 Theorem C01_nodes_agree_on_finalized_blocks :
   forall (batch : nat) (c : pchange) (s0 : store) (U : chain -> Prop) (byz : list addr) (blk_of : N -> block)
@@ -205,3 +206,143 @@ Theorem C01_nodes_agree_on_finalized_blocks_dynamic_partial :
     exists i1 i2, EndToEnd.F.block_at n1 h = Some i1 /\ EndToEnd.F.block_at n2 h = Some i2 /\ (h = 0 -> i1 = g /\ i2 = g) /\
                   blk_of i1 = blk_of i2 /\ ((forall i j, blk_of i = blk_of j -> i = j) -> i1 = i2).
 Proof. exact EndToEnd.C01_nodes_agree_on_finalized_blocks_dynamic_partial. Qed.
+
+(* ------------------------------------------------------------------ blocks WITH IDENTITY (BFT/SafetyIds.v, EndToEndIds.v) *)
+(* In BFT/Votes.v a block is its BFT tuple (height, generator, maxHeightGenerated, maxHeightPrevoted, certificate height, optional
+   parameter change): the theorems above conclude agreement of BFT-content histories, and a generator forging two blocks with
+   EQUAL tuples and different IDs/payloads (the commonest double forge) is invisible to them.  Here a block carries an opaque id
+   (tchain = list (id * block); votes/views/quorums are those of the untagged chain: liskbft never sees the id), a BLOCK is a
+   non-empty tagged prefix, and [thonest TU v] demands that any two DISTINCT tagged blocks of v in the universe carry
+   non-contradicting headers -- equal tuples at equal height are contradicting (C07), so the same-tuple double forger is
+   Byzantine and its weight counts in [byz].  Conclusions are about histories INCLUDING ids.  Hash collision-freeness ("the id
+   of a block determines the block and its history", [ids_determine_history]) is NOT a premise of the safety theorems; it is what
+   makes [thonest] equivalent to its reading on ids ([thonest_ids], theorem C01_static_safety_by_ids). *)
+From LE Require Import BFT.SafetyIds BFT.SafetyIdsExamples BFT.SafetyOracleIds.
+From LE Require BFT.EndToEndIds.
+
+Theorem C01_static_safety_ids : forall (batch : nat) (gh : N) (c : pchange) (s0 : store) (TU : tchain -> Prop) (byz : list addr),
+  (0 < batch)%nat -> init_store batch gh c = Ok s0 ->
+  tuniverse_decl batch gh s0 TU ->
+  (forall v, In v (map fst (c_vals c)) -> ~ In v byz -> thonest TU v) ->
+  total_weight (sort_desc (c_vals c)) + wsum (sort_desc (c_vals c)) byz < c_pc c + (total_weight (c_vals c) * 2 / 3 + 1) ->
+  forall T1 T2 s1 s2 h1 h2, TU T1 -> TU T2 ->
+    run_blocks batch s0 (untag T1) = Ok s1 -> run_blocks batch s0 (untag T2) = Ok s2 ->
+    gh < h1 <= v_mhpc (s_votes s1) -> gh < h2 <= v_mhpc (s_votes s2) ->
+    prefix (firstn (N.to_nat (h1 - gh)) T1) (firstn (N.to_nat (h2 - gh)) T2) \/
+    prefix (firstn (N.to_nat (h2 - gh)) T2) (firstn (N.to_nat (h1 - gh)) T1).
+Proof. exact SafetyIds.C01_static_safety_ids. Qed.
+
+Theorem C01_static_safety_ids_one_third : forall (batch : nat) (gh : N) (c : pchange) (s0 : store) (TU : tchain -> Prop) (byz : list addr),
+  (0 < batch)%nat -> init_store batch gh c = Ok s0 ->
+  tuniverse_decl batch gh s0 TU ->
+  (forall v, In v (map fst (c_vals c)) -> ~ In v byz -> thonest TU v) ->
+  3 * wsum (sort_desc (c_vals c)) byz < total_weight (c_vals c) ->
+  total_weight (c_vals c) * 2 / 3 + 1 <= c_pc c ->
+  forall T1 T2 s1 s2 h1 h2, TU T1 -> TU T2 ->
+    run_blocks batch s0 (untag T1) = Ok s1 -> run_blocks batch s0 (untag T2) = Ok s2 ->
+    gh < h1 <= v_mhpc (s_votes s1) -> gh < h2 <= v_mhpc (s_votes s2) ->
+    prefix (firstn (N.to_nat (h1 - gh)) T1) (firstn (N.to_nat (h2 - gh)) T2) \/
+    prefix (firstn (N.to_nat (h2 - gh)) T2) (firstn (N.to_nat (h1 - gh)) T1).
+Proof. exact SafetyIds.C01_static_safety_ids_one_third. Qed.
+
+(* no two views finalize different blocks -- different ids included -- at the same height *)
+Theorem C01_static_same_height_same_block_ids : forall (batch : nat) (gh : N) (c : pchange) (s0 : store) (TU : tchain -> Prop) (byz : list addr),
+  (0 < batch)%nat -> init_store batch gh c = Ok s0 ->
+  tuniverse_decl batch gh s0 TU ->
+  (forall v, In v (map fst (c_vals c)) -> ~ In v byz -> thonest TU v) ->
+  total_weight (sort_desc (c_vals c)) + wsum (sort_desc (c_vals c)) byz < c_pc c + (total_weight (c_vals c) * 2 / 3 + 1) ->
+  forall T1 T2 s1 s2 h, TU T1 -> TU T2 ->
+    run_blocks batch s0 (untag T1) = Ok s1 -> run_blocks batch s0 (untag T2) = Ok s2 ->
+    gh < h -> h <= v_mhpc (s_votes s1) -> h <= v_mhpc (s_votes s2) ->
+    firstn (N.to_nat (h - gh)) T1 = firstn (N.to_nat (h - gh)) T2 /\
+    nth_error T1 (N.to_nat (h - gh - 1)) = nth_error T2 (N.to_nat (h - gh - 1)).
+Proof. exact SafetyIds.C01_static_same_height_same_block_ids. Qed.
+
+(* honesty read on ids ("blocks of v with different ids carry non-contradicting headers") under hash collision-freeness *)
+Theorem C01_static_safety_by_ids : forall (batch : nat) (gh : N) (c : pchange) (s0 : store) (TU : tchain -> Prop) (byz : list addr),
+  (0 < batch)%nat -> init_store batch gh c = Ok s0 ->
+  tuniverse_decl batch gh s0 TU -> ids_determine_history TU ->
+  (forall v, In v (map fst (c_vals c)) -> ~ In v byz -> thonest_ids TU v) ->
+  total_weight (sort_desc (c_vals c)) + wsum (sort_desc (c_vals c)) byz < c_pc c + (total_weight (c_vals c) * 2 / 3 + 1) ->
+  forall T1 T2 s1 s2 h1 h2, TU T1 -> TU T2 ->
+    run_blocks batch s0 (untag T1) = Ok s1 -> run_blocks batch s0 (untag T2) = Ok s2 ->
+    gh < h1 <= v_mhpc (s_votes s1) -> gh < h2 <= v_mhpc (s_votes s2) ->
+    prefix (firstn (N.to_nat (h1 - gh)) T1) (firstn (N.to_nat (h2 - gh)) T2) \/
+    prefix (firstn (N.to_nat (h2 - gh)) T2) (firstn (N.to_nat (h1 - gh)) T1).
+Proof. exact SafetyIds.C01_static_safety_by_ids. Qed.
+
+(* dynamic validator sets over blocks with identity; PARTIAL: premise TQI_model_decl (QI_model_decl with "the chains have
+   different blocks at height a" read on tagged blocks) *)
+Theorem C01_dynamic_safety_ids_partial : forall (batch : nat) (gh : N) (c : pchange) (s0 : store) (TU : tchain -> Prop),
+  (0 < batch)%nat -> init_store batch gh c = Ok s0 ->
+  tuniverseD_decl batch gh s0 TU ->
+  TQI_model_decl batch gh s0 TU ->
+  forall T1 T2 s1 s2 h1 h2, TU T1 -> TU T2 ->
+    run_blocks batch s0 (untag T1) = Ok s1 -> run_blocks batch s0 (untag T2) = Ok s2 ->
+    gh < h1 <= v_mhpc (s_votes s1) -> gh < h2 <= v_mhpc (s_votes s2) ->
+    prefix (firstn (N.to_nat (h1 - gh)) T1) (firstn (N.to_nat (h2 - gh)) T2) \/
+    prefix (firstn (N.to_nat (h2 - gh)) T2) (firstn (N.to_nat (h1 - gh)) T1).
+Proof. exact SafetyIds.C01_dynamic_safety_ids_partial. Qed.
+
+(* the executable oracle over blocks with identity (Universe.texamine, used by Corr/C01.v) never fires under the hypotheses *)
+Theorem C01_texamine_safe : forall batch gh c (T1 T2 : tchain), (0 < batch)%nat -> NoDup (map fst (c_vals c)) ->
+  let v := texamine batch gh c T1 T2 in
+  vd_valid v = true -> vd_static v = true -> vd_hyp v = true ->
+  total_weight (c_vals c) * 2 / 3 + 1 <= c_pc c -> vd_safe v = true.
+Proof. intros batch gh c T1 T2 Hb Hn. exact (texamine_safe batch Hb gh c T1 T2 Hn). Qed.
+
+(* node level, no premise relating ids to BFT content: the node chain [g; id1; ...] is abstracted to [(id1, blk_of id1); ...] *)
+Theorem C01_nodes_agree_on_finalized_block_ids :
+  forall (batch : nat) (c : pchange) (s0 : store) (TU : tchain -> Prop) (byz : list addr) (blk_of : N -> block)
+         (g : N) (ops1 ops2 : list EndToEndIds.F.op),
+  (0 < batch)%nat -> init_store batch 0 c = Ok s0 ->
+  tuniverse_decl batch 0 s0 TU ->
+  (forall v, In v (map fst (c_vals c)) -> ~ In v byz -> thonest TU v) ->
+  total_weight (sort_desc (c_vals c)) + wsum (sort_desc (c_vals c)) byz < c_pc c + (total_weight (c_vals c) * 2 / 3 + 1) ->
+  EndToEndIds.linked_run batch s0 TU blk_of (EndToEndIds.F.init g) ops1 ->
+  EndToEndIds.linked_run batch s0 TU blk_of (EndToEndIds.F.init g) ops2 ->
+  let n1 := EndToEndIds.F.run (EndToEndIds.F.init g) ops1 in let n2 := EndToEndIds.F.run (EndToEndIds.F.init g) ops2 in
+  forall h, h <= EndToEndIds.F.fin n1 -> h <= EndToEndIds.F.fin n2 ->
+    exists i, EndToEndIds.F.block_at n1 h = Some i /\ EndToEndIds.F.block_at n2 h = Some i.
+Proof. exact EndToEndIds.C01_nodes_agree_on_finalized_block_ids. Qed.
+
+Theorem C01_nodes_agree_on_finalized_block_ids_dynamic_partial :
+  forall (batch : nat) (c : pchange) (s0 : store) (TU : tchain -> Prop) (blk_of : N -> block)
+         (g : N) (ops1 ops2 : list EndToEndIds.F.op),
+  (0 < batch)%nat -> init_store batch 0 c = Ok s0 ->
+  tuniverseD_decl batch 0 s0 TU -> TQI_model_decl batch 0 s0 TU ->
+  EndToEndIds.linked_run batch s0 TU blk_of (EndToEndIds.F.init g) ops1 ->
+  EndToEndIds.linked_run batch s0 TU blk_of (EndToEndIds.F.init g) ops2 ->
+  let n1 := EndToEndIds.F.run (EndToEndIds.F.init g) ops1 in let n2 := EndToEndIds.F.run (EndToEndIds.F.init g) ops2 in
+  forall h, h <= EndToEndIds.F.fin n1 -> h <= EndToEndIds.F.fin n2 ->
+    exists i, EndToEndIds.F.block_at n1 h = Some i /\ EndToEndIds.F.block_at n2 h = Some i.
+Proof. exact EndToEndIds.C01_nodes_agree_on_finalized_block_ids_dynamic_partial. Qed.
+
+(* non-vacuity / sharpness on SafetyInst.Example's chain A (4 unit validators, thresholds 3/3):
+   (1) a same-tuple / different-id double forge by validator 4 (weight 1 < 4/3): all hypotheses hold, the identity-free model
+       does not even see a fork (untag TB is a prefix of untag TA);
+   (2) every block re-forged with equal tuples and other ids: the identity-free conclusion holds trivially, two DIFFERENT blocks
+       are final at every height, every validator is Byzantine in the sense of [thonest] (weight 4 >= 1/3);
+   (3) a fork without any Byzantine validator in which both views report finalized blocks (heights 5 and 3, fork point 8). *)
+Example C01_ids_hypotheses_satisfiable :
+  (0 < 4)%nat /\ init_store 4 0 Example.ex_c = Ok Example.ex_s0 /\ tuniverse_decl 4 0 Example.ex_s0 TU1 /\
+  (forall v, In v (map fst (c_vals Example.ex_c)) -> ~ In v [4] -> thonest TU1 v) /\
+  3 * wsum (sort_desc (c_vals Example.ex_c)) [4] < total_weight (c_vals Example.ex_c) /\
+  total_weight (c_vals Example.ex_c) * 2 / 3 + 1 <= c_pc Example.ex_c /\
+  TU1 TA /\ TU1 TB /\ run_blocks 4 Example.ex_s0 (untag TA) = Ok sA /\ v_mhpc (s_votes sA) = 5 /\
+  firstn 3 TA = firstn 3 TB /\ map snd (firstn 4 TA) = map snd TB /\ nth_error TA 3 <> nth_error TB 3 /\
+  ~ prefix TB TA /\ prefix (untag TB) (untag TA) /\ ~ thonest TU1 4.
+Proof. exact SafetyIdsExamples.C01_ids_hypotheses_satisfiable. Qed.
+Example C01_ids_gap_all_byzantine :
+  untag TA = untag TA' /\ TU2 TA /\ TU2 TA' /\ tuniverse_decl 4 0 Example.ex_s0 TU2 /\
+  run_blocks 4 Example.ex_s0 (untag TA) = Ok sA /\ run_blocks 4 Example.ex_s0 (untag TA') = Ok sA /\ v_mhpc (s_votes sA) = 5 /\
+  firstn 5 (untag TA) = firstn 5 (untag TA') /\
+  ~ prefix (firstn 5 TA) (firstn 5 TA') /\ ~ prefix (firstn 5 TA') (firstn 5 TA) /\ nth_error TA 4 <> nth_error TA' 4 /\
+  (forall v, In v [1; 2; 3; 4] -> ~ thonest TU2 v).
+Proof. exact SafetyIdsExamples.C01_ids_gap_all_byzantine. Qed.
+Example C01_ids_both_views_finalize :
+  tuniverse_decl 4 0 Example.ex_s0 TU3 /\ (forall v, In v (map fst (c_vals Example.ex_c)) -> ~ In v [] -> thonest TU3 v) /\
+  TU3 TA /\ TU3 TC /\ run_blocks 4 Example.ex_s0 (untag TA) = Ok sA /\ run_blocks 4 Example.ex_s0 (untag TC) = Ok sC /\
+  v_mhpc (s_votes sA) = 5 /\ v_mhpc (s_votes sC) = 3 /\ firstn 8 TA = firstn 8 TC /\ nth_error TA 8 <> nth_error TC 8 /\
+  prefix (firstn 3 TC) (firstn 5 TA).
+Proof. pose proof SafetyIdsExamples.C01_ids_both_views_finalize as H. tauto. Qed.
